@@ -4,7 +4,7 @@
    Run in this directory:  coqc -Q ../coq ACV Extract.v   (writes model.ml / model.mli here). *)
 From Coq Require Extraction.
 From Coq Require Import ExtrOcamlBasic ExtrOcamlString.
-From ACV Require Import Model.Cli Model.Peg Model.PathGrammar Model.Graph Model.PathSem Model.Dnf Model.Rules Model.Report Model.Pipeline Model.Escape Model.Lexical Model.Names.
+From ACV Require Import Model.Cli Model.Peg Model.PathGrammar Model.Graph Model.PathSem Model.Dnf Model.Rules Model.Report Model.Pipeline Model.Escape Model.Lexical Model.Names Model.JsonLd.
 Extraction Language OCaml.
 Extraction "model.ml" Cli.run Cli.run_history Cli.last_ok Cli.spec_run Cli.spec_history
   PathGrammar.parse_path_with PathGrammar.default_fuel
@@ -15,4 +15,5 @@ Extraction "model.ml" Cli.run Cli.run_history Cli.last_ok Cli.spec_run Cli.spec_
   Pipeline.run_entry Pipeline.as_coded Pipeline.spec_trace
   Escape.display Escape.rendered Escape.paste_message Escape.message_variables Escape.paste_name Escape.package_name
   Lexical.result_location Lexical.dec_n
-  Names.var_name Names.plural Names.declared.
+  Names.var_name Names.plural Names.declared
+  JsonLd.flatten JsonLd.denote.
